@@ -122,18 +122,20 @@ def tlc_mc(ctx, spec, cfg, workers=12, timeout=900, expect_violation=False, cove
     t = time.time()
     rc, out = run(_tlc_cmd(ctx, spec, cfg, workers, extra), timeout=timeout, cwd=ctx.work,
                   env={"JAVA_TOOL_OPTIONS": "-Xss512m"})
-    if not expect_violation and "is violated" in out:
+    if not expect_violation and "Model checking completed. No error has been found." not in out:
         # exhaustive breadth-first search of a deterministic model: a real violation reproduces on every
-        # run.  Once, under heavy machine load, TLC reported an invariant violated in an *initial* state
-        # that satisfies it (one spurious extra distinct state; four re-runs were clean), so a reported
-        # violation is confirmed by a second run before it is believed.
+        # run.  Under heavy machine load multi-worker TLC twice produced a non-reproducible failure (an
+        # invariant "violated" in an *initial* state that satisfies it, with one spurious extra distinct
+        # state; and "RuntimeException: Field name a occurs multiple times in record" - unsynchronised
+        # normalisation of a value shared between workers), so a failure is confirmed by a second run
+        # before it is believed.
         rc2, out2 = run(_tlc_cmd(ctx, spec, cfg, workers, extra), timeout=timeout, cwd=ctx.work,
                         env={"JAVA_TOOL_OPTIONS": "-Xss512m"})
-        if "is violated" not in out2 and "Model checking completed. No error has been found." in out2:
-            ctx.notes.append("TLC reported a violation for %s/%s that did not reproduce on the re-run (tool glitch, "
+        if "Model checking completed. No error has been found." in out2:
+            ctx.notes.append("TLC reported a failure for %s/%s that did not reproduce on the re-run (tool glitch, "
                              "first output kept in %s)" % (spec, os.path.basename(cfg), ctx.path("tlc_glitch.out")))
             open(ctx.path("tlc_glitch.out"), "w").write(out)
-            out = out2
+        out = out2
     m = _RE_STATES.findall(out)
     res = {"spec": spec, "cfg": cfg, "wall_s": round(time.time() - t, 1), "out": out}
     if m:
